@@ -1,7 +1,7 @@
 (* Property C13 - position and comment bookkeeping is transparent.  Theorems only. *)
 From MF Require Import Lib.Base Model.GrammarTypes Model.Transformer Model.SlotDoc Model.SlotCheck Model.Api
   Proofs.SlotsAll Proofs.C13U Proofs.C13U_Comments Proofs.LRTyping Proofs.LRTyping_Gkv
-  Proofs.C13C_Parse Proofs.C13C_Erase Proofs.C13C Proofs.C13C_Align.
+  Proofs.C13C_Parse Proofs.C13C_Erase Proofs.C13C Proofs.C13C_Align Proofs.C13C_Conv.
 
 (* ---- include_position, universally *)
 
@@ -76,11 +76,37 @@ Print Assumptions C13_comments_acceptance_on_to_off.
 
 (* [R] ... the converse is false: a key-value entry spelled __comments__ makes
    the comments run fail (known finding C13-kv-key-named-comments; same on the
-   real loads).  A guarded converse is not proved: PARTIAL. *)
+   real loads). *)
 Theorem C13_comments_acceptance_off_to_on_refuted :
   exists text, forall ip, (exists w, loads ip false text = Ok w) /\ loads ip true text = Err LarkVisitError.
 Proof. exact comments_alignment_loads_off_to_on_refuted. Qed.
 Print Assumptions C13_comments_acceptance_off_to_on_refuted.
+
+(* [U] ... and that is the ONLY way: for every text in whose parse tree no pair
+   of a VALUES / METADATA / VALIDATION / CONNECTIONOPTIONS block has a key that,
+   unquoted and lower-cased, is spelled __comments__ (KEYGUARD, a boolean computed
+   from the text alone; Proofs/C13C_Conv.v, agent prover-c13g), a text that loads
+   without comments loads with comments, in either position mode.  Totality of the
+   comments transformer and of the comments callback on parser-shaped trees, and
+   the alignment of tr_main in the other direction.  The shape side conditions are
+   discharged by the grammar-conformance theorems of Proofs/LRTyping.v. *)
+Theorem C13_comments_acceptance_off_to_on_guarded :
+  forall ip text w, loads ip false text = Ok w -> KEYGUARD text = true -> exists v, loads ip true text = Ok v.
+Proof. exact comments_alignment_loads_off_to_on_keyguarded. Qed.
+Print Assumptions C13_comments_acceptance_off_to_on_guarded.
+
+(* [U] under the guard the two comment modes accept exactly the same texts *)
+Theorem C13_comments_acceptance_iff_guarded :
+  forall ip text, KEYGUARD text = true ->
+  ((exists v, loads ip true text = Ok v) <-> (exists w, loads ip false text = Ok w)).
+Proof. exact comments_alignment_loads_iff_keyguarded. Qed.
+Print Assumptions C13_comments_acceptance_iff_guarded.
+
+(* the guard is met by a commented document with METADATA and VALIDATION blocks,
+   is violated by the refutation witness, and is sufficient but not necessary *)
+Example C13_keyguard_nonvacuous :
+  KEYGUARD commented_sample = true /\ KEYGUARD cex_comments_text = false.
+Proof. split; [exact keyguard_holds_on_a_commented_text|exact keyguard_rejects_the_witness]. Qed.
 
 (* ---- all four flag combinations *)
 
